@@ -65,6 +65,10 @@ def call_method(I, recv, name, argexprs, scope, frame, g, hint, e):
             return OptV(T, recv)
         if name == "to_string":
             return ("numstr", recv)
+        if name == "cmp":
+            a = arg()
+            lt, eq = int_lt(recv, a), int_eq(recv, a)
+            return EnumV("Ordering", {"Less": (lt, ()), "Equal": (eq, ()), "Greater": (c.and2(-lt, -eq), ())})
         if name == "unwrap":
             return recv
         raise Unsupported("integer method " + name)
